@@ -300,7 +300,17 @@ static Bytes bloom_image(Rng& r, bool T_, int kind) {
 // ------------------------------------------------------------------ registration
 std::vector<Target> targets() {
   std::vector<Target> t;
+  std::vector<Target> fam_legacy;
   struct { const char* name; int k; } fks[] = {{"empty", F_EMPTY}, {"single", F_SINGLE}, {"few", F_FEW}, {"grown", F_GROWN}, {"purged", F_PURGED}, {"bigcfg_few", F_BIGCFG}};
+  // older writers marked an empty sketch with flag 0x01 (C++) or 0x04 (Java); today both bits are set: all three are accepted
+  for (int fl : {1, 4}) {
+    BuildFn b = [fl](Rng& r, bool) { Wr w; w.u8(1).u8(1).u8(10).u8(uint8_t(r.range(3, 12))).u8(3).u8(uint8_t(fl)).u16(0); return w.b; };
+    const std::string name = "legacy_empty_flag_0x0" + std::to_string(fl);
+    fam_legacy.push_back({"fi_int64", name, "bytes", b, bytes_path(fi_bytes<int64_t>)});
+    fam_legacy.push_back({"fi_int64", name, "stream", b, stream_path(fi_stream<int64_t>)});
+    fam_legacy.push_back({"fi_string", name, "bytes", b, bytes_path(fi_bytes<std::string>)});
+    fam_legacy.push_back({"fi_string", name, "stream", b, stream_path(fi_stream<std::string>)});
+  }
   struct { const char* name; int k; } cks[] = {{"empty", C_EMPTY}, {"few", C_FEW}, {"many", C_MANY}};
   struct { const char* name; int k; } bks[] = {{"empty", B_EMPTY}, {"few_dirty", B_FEW_DIRTY}, {"few_counted", B_FEW_COUNTED}, {"dense", B_DENSE}};
   std::vector<std::vector<Target>> fam(4);
@@ -333,6 +343,7 @@ std::vector<Target> targets() {
     for (auto& f : fam) if (i < f.size()) { t.push_back(f[i]); any = true; }
     if (!any) break;
   }
+  for (auto& x : fam_legacy) t.push_back(x);
   return t;
 }
 
